@@ -101,6 +101,9 @@ fn plan(prop: &str, tier: &str) -> Plan {
             let d = fam_depth(0, if heavy { 0 } else { 1 });
             let n = family_items("castle-matrix", cm, d, &mut items);
             fams.push(json!({"family": "castle-matrix", "members": n, "depth": d, "complete": thorough && !heavy}));
+            let ed = ep_discovery();
+            let n = family_items("ep-discovery", ed, 0, &mut items);
+            fams.push(json!({"family": "ep-discovery", "members": n, "depth": 0, "complete": true}));
             let em = ep_matrix(thorough && !heavy);
             let d = fam_depth(0, if heavy { 0 } else { 1 });
             let n = family_items("ep-matrix", em, d, &mut items);
@@ -147,6 +150,13 @@ fn plan(prop: &str, tier: &str) -> Plan {
             }
         }
         fams.push(json!({"family": "clock-preloaded roots (C05)", "members": n, "depth": 2}));
+    }
+    // C06: terminal family — mates and stalemates of king + one adjacent pawn (free, blocked or pinned)
+    if prop == "C06" {
+        let ks: Vec<Sq> = if thorough { vec![0, 1, 8, 7, 6, 15, 56, 57, 48, 63, 62, 55] } else { vec![0, 7, 56, 63] };
+        let fam = terminal_family(&ks);
+        let n = family_items("terminal-family", fam, 0, &mut items);
+        fams.push(json!({"family": "terminal-family (king + adjacent pawn, mated or stalemated)", "members": n, "mover_king_squares": ks.len()}));
     }
     // playout seeds: positions deep into deterministic long games (several promoted pieces etc.)
     {
